@@ -1,5 +1,5 @@
 """C02 - SolveFailure is raised exactly when the hard constraints are unsatisfiable."""
-from .. import engine, fam_expr, fam_hist, fam_tree, fam_fault, fam_list
+from .. import engine, fam_expr, fam_hist, fam_tree, fam_fault, fam_list, fam_dist
 
 LEVEL = "model_checking"
 
@@ -16,7 +16,9 @@ def scenarios(tier, seed):
             # unsatisfiable systems whose smallest conflict has 3..6 constraints, with the failure diagnostics on and off
             + fam_fault.family_bigcore(tier, seed)
             # arithmetic next to list.sum while the list grows and shrinks between calls: no width bookkeeping may raise
-            + [x for x in fam_list.family_fixed(tier, seed) if "/sum_arith/" in x["id"] or "/idx_merge/" in x["id"]])
+            + [x for x in fam_list.family_fixed(tier, seed) if any(k_ in x["id"] for k_ in ("/sum_arith/", "/idx_merge/", "/fe_tbl/", "/fe_notidx/", "/fe_guard/"))]
+            # dist: zero-weight entries make systems unsatisfiable
+            + fam_dist.family_dist(tier, seed, n=6 if tier == "quick" else 60))
 
 
 def run(tier, seed, limit=0):
